@@ -6,8 +6,8 @@
    published is the publish model (Props/C03.v); that the queued files are the
    selected/parsed ones is C09/C10.  The implementation-side fsck oracle checks
    the end-to-end statement on every run. *)
-From AM.Model Require Import Base Download Pipeline.
-From AM.Lemmas Require Import DownloadLemmas PipelineLemmas.
+From AM.Model Require Import Base Download Pipeline Stage.
+From AM.Lemmas Require Import DownloadLemmas PipelineLemmas StageRunLemmas StageComplete.
 Open Scope string_scope.
 Open Scope list_scope.
 
@@ -63,3 +63,22 @@ Theorem obtained_has_declared_size :
                   ((0 < vsize v)%N -> fsize i = vsize v).
 Proof. exact obtained_sound_lemma. Qed.
 Print Assumptions obtained_has_declared_size.
+
+(* STAGE LEVEL.  A whole download stage (any queue of files with pairwise
+   disjoint target paths, any upstream behaviour, ANY filesystem at the start):
+   if the stage counts no failure, then every queued file that is neither under
+   ignore_errors nor optional was obtained, and in the stage's FINAL filesystem
+   it is present on every path of the obtained variant with the declared size
+   (later transfers do not disturb earlier ones).  Together with
+   [exit0_iff_all_repositories_succeed] / [success_means_nothing_counted] this
+   is "exit 0 => every required file is there" below the selection layer. *)
+Theorem clean_stage_is_complete :
+  forall u files fs,
+  disjoint_files files ->
+  (forall f v, In f files -> In v (variants f) -> In (vsource v) (vpaths v)) ->
+  let '(rs, fs') := run_stage false files u fs in
+  forall f r, In (f, r) (combine files rs) ->
+  counted r = false -> ignore_errors f = false -> ignore_missing f = false ->
+  obtained_variant r <> None /\ complete_in f r fs'.
+Proof. exact clean_stage_is_complete_lemma. Qed.
+Print Assumptions clean_stage_is_complete.
